@@ -41,6 +41,8 @@ func C10(r *core.Run) {
 	rule029(r)
 	rule016(r, "C10")
 	rule019(r)
+	rule0211(r)
+	rule1014(r)
 }
 
 // fsCall: the call is a use of an afero filesystem (method of afero.Fs or an
@@ -605,7 +607,7 @@ func rule107(r *core.Run) {
 		rm := r.P.CallsIn(fn, false, core.NameIs("invoke:github.com/spf13/afero.Fs.Remove"))
 		r.Check(len(rm) == 1, "R10.7", key(fname(r, fn), "object removed with Remove"), r.P.Pos(fn.Pos()), "single non-recursive Remove", "deleteObjectLocked does not remove the object with exactly one non-recursive Fs.Remove")
 	}
-	r.Floor("R10.7", 5, "RemoveAll sites + object deletes")
+	r.Floor("R10.7", 4, "RemoveAll sites + object deletes")
 }
 
 // rule108 — bolt operations are keyed by exactly the addressed name.
@@ -1231,4 +1233,44 @@ func uploadAddressedExactly(r *core.Run, gu *ssa.Function) bool {
 		}
 	}
 	return okAddr
+}
+
+// rule1014 — Fs.RemoveAll is never given a bucket name.
+func rule1014(r *core.Run) {
+	r.Rule("R10.14", "the fs backends call afero.Fs.RemoveAll only with the filesystem root (\".\") or with the path of a directory entry of a bucket that the same operation removes as a whole (a path built from a ReadDir/Walk entry name): the pinned afero MemMapFs implements RemoveAll as 'remove every path that starts with this string', so RemoveAll(\"data\") also removes bucket \"data-archive\" (table of dependency calls whose pinned implementation deviates from the documented contract — E5)")
+	n, allowed := 0, 0
+	for _, fn := range r.P.FuncsOfPkg("s3afero") {
+		f := fn
+		core.Instrs(f, func(in ssa.Instruction) {
+			c, ok := in.(ssa.CallInstruction)
+			if !ok || !strings.HasSuffix(r.P.CalleeName(c), "afero.Fs.RemoveAll") {
+				return
+			}
+			args := c.Common().Args
+			if len(args) == 0 {
+				return
+			}
+			n++
+			arg := args[len(args)-1]
+			okArg := false
+			if k, isK := core.ConstString(arg); isK && (k == "." || k == "/" || k == "") {
+				okArg = true
+			}
+			s := r.P.SliceOf(arg, core.SliceOpts{Depth: -1})
+			for _, l := range s.LeafList("") {
+				if strings.HasSuffix(l, "FileInfo.Name") {
+					okArg = true
+				}
+			}
+			if okArg {
+				allowed++
+			}
+			r.Check(okArg, "R10.14", key(fname(r, f), "RemoveAll argument", sprintf("#%d", n)), pos(r, in), "root, or a directory entry of the bucket being removed",
+				"Fs.RemoveAll is given a bucket-level name: over afero's MemMapFs this removes every bucket (or metadata directory) whose name merely starts with the same characters — deleting bucket \"data\" destroys bucket \"data-archive\"")
+		})
+	}
+	// positive control: the rule still sees the calls it allows
+	if allowed < 1 {
+		r.Unresolved("R10.14: no RemoveAll call of the fs backends recognised (expected the root removal of the single-bucket backend)")
+	}
 }
